@@ -1171,6 +1171,20 @@ func (t *objectType) createNewFunction(c px.Context) {
 		functions = []px.DispatchFunction{
 			// Positional argument creator
 			func(c px.Context, args []px.Value) px.Value {
+				// The positional signature admits the init-hash of an attribute whose type is an Object type
+				// (typeAndInit below): such an argument becomes an instance, as it does in the named creator
+				attrs := t.AttributesInfo().Attributes()
+				for i, arg := range args {
+					if i >= len(attrs) {
+						break
+					}
+					if ot, ok := attrs[i].Type().(px.ObjectType); ok && !ot.IsInstance(arg, nil) {
+						ca := make([]px.Value, len(args))
+						copy(ca, args)
+						ca[i] = coerceTo(c, []string{attrs[i].Label()}, ot, arg)
+						args = ca
+					}
+				}
 				return NewObjectValue(c, t, args)
 			},
 			// Named argument creator
